@@ -487,6 +487,7 @@ void gen(uint64_t seed, int tier, sim::Plan &p) {
         p.ops.push_back(m);
         sim::Op sl; sl.thr = 0; sl.kind = OP_MAIN_SLEEP; sl.a = r.pick(std::vector<int64_t>{2000000000ll, 45000000000ll, 100000000000ll});
         p.ops.push_back(sl);
+        p.cfg["hang_scale"] = 5;
         p.cfg["soft_budget"] = 12 * n + 200000;
         p.cfg["hard_budget"] = 40 * n + 3000000;
     }
